@@ -256,6 +256,23 @@ func c15Model(x *c15World, op, got string) string {
 				return fmt.Sprintf("entropy of the current fields is %v", want)
 			}
 		}
+	case strings.HasPrefix(op, "Generate(value copy of w"):
+		// the copy must honour ITS fields: separator "+" unless a separator function is set
+		wc2 := wc
+		wc2.Length = 2
+		if x.w.SeparatorFunc == nil {
+			wc2.Sep = Sep{Kind: "char", Char: "+"}
+		}
+		cp := *x.w
+		cp.SeparatorChar = "+"
+		cp.Length = 2
+		install(policyTape(c15Tapes[1]))
+		out := runGen(cp.Generate)
+		if out.HasPw {
+			if msg := c05Leaf(wc2, out); msg != "" {
+				return msg
+			}
+		}
 	case op == "Generate(w,t1)":
 		install(policyTape(c15Tapes[0]))
 		out := runGen(x.w.Generate)
